@@ -161,7 +161,7 @@ Proof.
   { destruct (SPAN_CAP <=? N.of_nat (length spans1)); [|exact I].
     destruct (SPAN_CAP <=? N.of_nat (length (compact spans1 maxw))); [|exact I].
     apply is_done_bind; [|intros; exact I]. apply give_up_done; [exact Hhi|lia]. }
-  intros [[spans2 idx2] ck2] Hcg. cbv beta iota.
+  intros [[[spans2 idx2] ck2] full2] Hcg. cbv beta iota.
   assert (Hidx : ts_idx st + 1 <= idx2).
   { destruct (SPAN_CAP <=? N.of_nat (length spans1)).
     - destruct (SPAN_CAP <=? N.of_nat (length (compact spans1 maxw))).
@@ -180,7 +180,7 @@ Proof.
   intros [|f] hi tord nt maxw st st' Hlt H; cbn [words_loop] in H; [discriminate|].
   rewrite ltb_true in H by exact Hlt.
   apply bind_inv in H as (w & _ & H). apply bind_inv in H as ([spans1 full1] & _ & H).
-  apply bind_inv in H as (ck & _ & H). apply bind_inv in H as ([[spans2 idx2] ck2] & Hcg & H).
+  apply bind_inv in H as (ck & _ & H). apply bind_inv in H as ([[[spans2 idx2] ck2] full2] & Hcg & H).
   assert (Hidx : ts_idx st + 1 <= idx2).
   { destruct (SPAN_CAP <=? N.of_nat (length spans1)).
     - destruct (SPAN_CAP <=? N.of_nat (length (compact spans1 maxw))).
@@ -414,6 +414,7 @@ Proof.
   eapply aokp_bind; [apply ia_fold_ok; [exact Hc|exact Hr|exact I]|]. intros acc _ Ha.
   destruct acc as [[ll lr]|]; [|exact I]. destruct Ha as [A1 A2]. cbn [fst snd] in A1, A2.
   eapply aokp_bind; [apply k_merge_drop|]. intros m1 _ M1. rewrite !map_length in M1.
+  pose proof (filter_len_le (fun h => hdr_unit <=? h) ll) as Hfl.
   eapply aokp_bind; [apply k_merge_drop|]. intros m2 _ M2.
   eapply aokp_bind; [apply k_merge_drop|]. intros m3 _ M3.
   cbv beta in M2, M3.
@@ -551,7 +552,7 @@ Proof.
   destruct (ts_idx st <? hi); [|inversion H; subst; exact Hl].
   apply bind_inv in H as (w & _ & H). apply bind_inv in H as ([spans1 full1] & Hbl & H).
   apply bits_loop_len in Hbl; [|exact Hl]. cbn [fst] in Hbl.
-  apply bind_inv in H as (ck & _ & H). apply bind_inv in H as ([[spans2 idx2] ck2] & Hcg & H).
+  apply bind_inv in H as (ck & _ & H). apply bind_inv in H as ([[[spans2 idx2] ck2] full2] & Hcg & H).
   assert (H2 : len spans2 <= SPAN_CAP).
   { pose proof (compact_len spans1 maxw) as Hc.
     destruct (SPAN_CAP <=? len spans1).
